@@ -310,24 +310,24 @@ theorem nested_arr3_tab2_eq_direct (ops : NameOps ν) {n c t : Nat} {k : Bool} {
   rw [(nested_to_arr3_eq_panel hN hn hc).1, nested_to_tab2 ops hN hn hc true]
   rfl
 
-/-- 2-D table → nested (Series cells): ONE variable whose series is the whole row (the code has no
-way to know where one variable ends), named `0` or by the name given -/
-theorem tab2_to_nested (ops : NameOps ν) (T : Tab2 α) (hne : T.rows ≠ []) :
-    from2dToNested ops T none false = .ok (nestedOf [ops.zero] false (panelOfRows T.rows)) ∧
-    ∀ name, from2dToNested ops T (some [name]) false =
-      .ok (nestedOf [name] false (panelOfRows T.rows)) :=
-  from2dToNested_ok ops T hne
+/-- 2-D table → nested (Series or array cells): ONE variable whose series is the whole row (the
+code has no way to know where one variable ends), named `0` or by the name given -/
+theorem tab2_to_nested (ops : NameOps ν) (T : Tab2 α) (hne : T.rows ≠ []) (k : Bool) :
+    from2dToNested ops T none k = .ok (nestedOf [ops.zero] k (panelOfRows T.rows)) ∧
+    ∀ name, from2dToNested ops T (some [name]) k =
+      .ok (nestedOf [name] k (panelOfRows T.rows)) :=
+  from2dToNested_ok ops T hne k
 
-/-- univariate panels survive the trip through the 2-D table: 3-D array (c = 1) → 2-D → nested →
-3-D array is the identity -/
+/-- univariate panels survive the trip through the 2-D table: 3-D array (c = 1) → 2-D → nested
+(Series or array cells) → 3-D array is the identity -/
 theorem arr3_tab2_nested_arr3_univariate (ops : NameOps ν) {n t : Nat} {X : Arr3 α}
-    (hX : Rect3 n 1 t X) (hn : 0 < n) :
-    (from2dToNested ops (from3dTo2d X) none false).bind fromNestedTo3d = .ok X := by
+    (hX : Rect3 n 1 t X) (hn : 0 < n) (k : Bool) :
+    (from2dToNested ops (from3dTo2d X) none k).bind fromNestedTo3d = .ok X := by
   have hne : (from3dTo2d X).rows ≠ [] := by
     intro h
     have : X.length = 0 := by simpa [from3dTo2d] using congrArg List.length h
     rw [hX.1] at this; omega
-  rw [(from2dToNested_ok ops (from3dTo2d X) hne).1]
+  rw [(from2dToNested_ok ops (from3dTo2d X) hne k).1]
   have hP : panelOfRows (from3dTo2d X).rows = X := by
     unfold panelOfRows from3dTo2d
     simp only [List.map_map]
@@ -338,30 +338,27 @@ theorem arr3_tab2_nested_arr3_univariate (ops : NameOps ν) {n t : Nat} {X : Arr
     match inst, h1 with
     | [s], _ => simp
   rw [hP]
-  exact fromNestedTo3d_ok hX hn (by omega) [ops.zero] rfl false
+  exact fromNestedTo3d_ok hX hn (by omega) [ops.zero] rfl k
 
 /-- multivariate panels: the trip through the 2-D table returns the column-concatenated panel
 (values and order kept, column boundaries and names lost) -/
 theorem arr3_tab2_nested_concat (ops : NameOps ν) {n c t : Nat} {X : Arr3 α}
-    (hX : Rect3 n c t X) (hn : 0 < n) :
-    from2dToNested ops (from3dTo2d X) none false =
-      .ok (nestedOf [ops.zero] false (X.map (fun inst => [inst.flatten]))) := by
+    (hX : Rect3 n c t X) (hn : 0 < n) (k : Bool) :
+    from2dToNested ops (from3dTo2d X) none k =
+      .ok (nestedOf [ops.zero] k (X.map (fun inst => [inst.flatten]))) := by
   have hne : (from3dTo2d X).rows ≠ [] := by
     intro h
     have : X.length = 0 := by simpa [from3dTo2d] using congrArg List.length h
     rw [hX.1] at this; omega
-  rw [(from2dToNested_ok ops (from3dTo2d X) hne).1]
+  rw [(from2dToNested_ok ops (from3dTo2d X) hne k).1]
   simp [panelOfRows, from3dTo2d, List.map_map, Function.comp_def]
 
-/-- FINDING (code as it is): `from_2d_array_to_nested(cells_as_numpy=True)` raises TypeError for
-every non-empty table, so array cells cannot be produced from a 2-D table.  Full-strength clause
-"2-D table → nested with array cells holds the same values" is therefore only provable for
-Series cells (`tab2_to_nested`). -/
-theorem tab2_to_nested_array_cells_rejected (ops : NameOps ν) (T : Tab2 α) (hne : T.rows ≠ [])
-    (cols : Option (List ν)) : from2dToNested ops T cols true = .error .type := by
-  cases h : T.rows with
-  | nil => exact absurd h hne
-  | cons r rs => simp [from2dToNested, h, bind, Except.bind, throw, throwThe, MonadExceptOf.throw]
+/-- regression witness of the fixed defect 9d494a8 (`cells_as_numpy=True` used to raise TypeError):
+array cells are now produced -/
+theorem tab2_to_nested_array_cells_witness :
+    from2dToNested nameOps (⟨none, [[1, 2]]⟩ : Tab2 Nat) none true
+      = .ok ⟨[(Name.i 0, [Cell.arr [1, 2]])]⟩ := by
+  rfl
 
 /-! ### long tables -/
 
@@ -407,63 +404,72 @@ theorem sortVars_spec (lt : ν → ν → Bool) (hnle : TotalLE (fun a b : ν =>
     rw [List.pairwise_map]
     exact this
 
-/-- nested → long → nested (default call): values, shape, instance order and time order are those
-of the original panel, the variables are in sorted-name order (each with its own data), cells are
-Series, and — the code as it is — the columns are RELABELLED `var_0 … var_{c-1}`
-(see `long_roundtrip_loses_names` for the consequence). -/
+/-- nested → long → nested (default call), FULL STRENGTH: for every well-formed nested frame (any
+distinct, non-reserved names, Series or array cells) the result holds the original values, shape,
+instance order and time order; its variables are the original ones in sorted-name order, each
+under its own name with its own data (`sortVars_spec`); cells are Series. -/
 theorem nested_long_nested [DecidableEq ν] (ops : NameOps ν)
     (hnle : TotalLE (fun a b : ν => !ops.lt b a)) (reserved : ν → Bool) {n c t : Nat} {k : Bool}
     {N : Nested ν α} (hN : WFNested n c t k N) (hn : 0 < n) (hc : 0 < c) (ht : 0 < t)
     (hres : N.names.any reserved = false) (i tm d : String) (hne : i ≠ tm) :
     (fromNestedToLong reserved N (some i) (some tm) (some d)).bind
       (fun L => fromLongToNested ops L i tm d none) =
-      .ok (nestedOf (defaultNames ops c) false
+      .ok (nestedOf (sortVarsNames ops.lt N.names (panelOfNested N)) false
         (sortVarsPanel ops.lt N.names (panelOfNested N))) := by
   obtain ⟨hrect, _⟩ := wfNested_eq_nestedOf hN hn hc
   have hl : N.names.length = c := by simp [Nested.names, hN.2.1]
   rw [nested_to_long reserved hN hn hc hres (some i) (some tm) (some d)]
   exact (fromLongToNested_ok ops hnle hrect hn hc ht N.names hl hN.1 i tm d hne).2
 
-/-- `_partial` form of the round trip: when the names are in sorted order and are passed back
-explicitly (`column_names=`), nested (Series cells) → long → nested is the identity.
-FULL-STRENGTH CLAUSE (not provable for the code as it is, see the next theorem): for every
-well-formed nested frame `N`, `from_long_to_nested(from_nested_to_long(N))` has the columns of `N`
-under their original names (in sorted-name order). -/
-theorem nested_long_nested_partial [DecidableEq ν] (ops : NameOps ν)
+/-- … in particular, when the names are in sorted order, nested (Series cells) → long → nested is
+the identity: values, shape, orders AND column names (the clause that failed before e35dbc7) -/
+theorem nested_long_nested_identity [DecidableEq ν] (ops : NameOps ν)
     (hnle : TotalLE (fun a b : ν => !ops.lt b a)) (reserved : ν → Bool) {n c t : Nat}
     {N : Nested ν α} (hN : WFNested n c t false N) (hn : 0 < n) (hc : 0 < c) (ht : 0 < t)
     (hres : N.names.any reserved = false)
     (hns : N.names.Pairwise (fun a b => (!ops.lt b a) = true)) (i tm d : String) (hne : i ≠ tm) :
     (fromNestedToLong reserved N (some i) (some tm) (some d)).bind
-      (fun L => fromLongToNested ops L i tm d (some N.names)) = .ok N := by
+      (fun L => fromLongToNested ops L i tm d none) = .ok N := by
   obtain ⟨hrect, heq⟩ := wfNested_eq_nestedOf hN hn hc
   have hl : N.names.length = c := by simp [Nested.names, hN.2.1]
-  rw [nested_to_long reserved hN hn hc hres (some i) (some tm) (some d)]
-  have := (fromLongToNested_ok ops hnle hrect hn hc ht N.names hl hN.1 i tm d hne).1 N.names hl
-  simp only [Except.bind, Option.getD]
-  rw [this, (sortVars_of_sorted ops.lt hrect hn N.names hl hns).2, ← heq]
+  rw [nested_long_nested ops hnle reserved hN hn hc ht hres i tm d hne]
+  have hs := sortVars_of_sorted ops.lt hrect hn N.names hl hns
+  rw [hs.1, hs.2, ← heq]
 
-/-- FINDING (negation of the full-strength clause at a concrete witness): the nested frame with
-columns `b = [1, 2]`, `a = [3, 4]` comes back from the long table as `var_0 = [3, 4]`,
-`var_1 = [1, 2]`: the names carried by the long table are lost and the data of `a` sit in the
-first column. -/
-theorem long_roundtrip_loses_names :
+/-- explicit `column_names=` relabel the (sorted) variables -/
+theorem nested_long_nested_renamed [DecidableEq ν] (ops : NameOps ν)
+    (hnle : TotalLE (fun a b : ν => !ops.lt b a)) (reserved : ν → Bool) {n c t : Nat} {k : Bool}
+    {N : Nested ν α} (hN : WFNested n c t k N) (hn : 0 < n) (hc : 0 < c) (ht : 0 < t)
+    (hres : N.names.any reserved = false) (i tm d : String) (hne : i ≠ tm) (names' : List ν)
+    (hl' : names'.length = c) :
+    (fromNestedToLong reserved N (some i) (some tm) (some d)).bind
+      (fun L => fromLongToNested ops L i tm d (some names')) =
+      .ok (nestedOf names' false (sortVarsPanel ops.lt N.names (panelOfNested N))) := by
+  obtain ⟨hrect, _⟩ := wfNested_eq_nestedOf hN hn hc
+  have hl : N.names.length = c := by simp [Nested.names, hN.2.1]
+  rw [nested_to_long reserved hN hn hc hres (some i) (some tm) (some d)]
+  exact (fromLongToNested_ok ops hnle hrect hn hc ht N.names hl hN.1 i tm d hne).1 names' hl'
+
+/-- regression witnesses of the fixed defect e35dbc7 (the result used to be relabelled
+`var_0, var_1, …` by position): columns `b = [1, 2]`, `a = [3, 4]` come back as `a = [3, 4]`,
+`b = [1, 2]` … -/
+theorem long_roundtrip_keeps_names_witness :
     (fromNestedToLong reservedName
         (nestedOf [Name.s "b", Name.s "a"] false ([[[1, 2], [3, 4]]] : Arr3 Nat)) none none none).bind
       (fun L => fromLongToNested nameOps L "index" "time_index" "column" none)
-    = .ok (nestedOf [Name.s "var_0", Name.s "var_1"] false [[[3, 4], [1, 2]]]) := by
+    = .ok (nestedOf [Name.s "a", Name.s "b"] false [[[3, 4], [1, 2]]]) := by
   rfl
 
-/-- … and with default names, as soon as there are 11 variables, data end up under ANOTHER
-variable's name: `var_10` sorts before `var_2`, so after the round trip the column labelled
-`var_2` holds the series that was `var_10`'s. -/
-theorem long_roundtrip_mislabels_default_names :
-    (fromNestedToLong reservedName
+/-- … and with 11 default-named variables `var_10` (which sorts before `var_2`) keeps its series:
+the third column of the result is labelled `var_10` and holds `[10]`. -/
+theorem long_roundtrip_default_names_witness :
+    ((fromNestedToLong reservedName
         (nestedOf (defaultNames nameOps 11) false
           ([[[0], [1], [2], [3], [4], [5], [6], [7], [8], [9], [10]]] : Arr3 Nat)) none none none).bind
-      (fun L => fromLongToNested nameOps L "index" "time_index" "column" none)
-    = .ok (nestedOf (defaultNames nameOps 11) false
-        [[[0], [1], [10], [2], [3], [4], [5], [6], [7], [8], [9]]]) := by
+      (fun L => fromLongToNested nameOps L "index" "time_index" "column" none)).map
+        (fun N => N.cols.take 4)
+    = .ok [(Name.s "var_0", [Cell.ser [0]]), (Name.s "var_1", [Cell.ser [1]]),
+           (Name.s "var_10", [Cell.ser [10]]), (Name.s "var_2", [Cell.ser [2]])] := by
   rfl
 
 /-- shuffled long tables: `from_long_to_nested` does not depend on the order of the rows -/
@@ -565,7 +571,7 @@ theorem long_rows_keys_nodup (names : List ν) {n c t : Nat} {X : Arr3 α} (hX :
 and 2-D table whose bookkeeping `path5` is defined (arguments fit, names distinct and not
 reserved) returns the canonical container of the final shape holding the panel the bookkeeping
 predicts: the SAME panel, except that a long table hands the variables back in sorted-name order
-(`sortVarsPanel`, every name with its own data) and a 2-D table read back is one variable of
+(`sortVarsNames` / `sortVarsPanel`: every name with its own data) and a 2-D table read back is one variable of
 length `c·t` (`panelOfRows`).  The invariant (rectangular panel of the recorded dimensions, fitting
 names) holds at the end, so paths compose. -/
 theorem path5_preserves_panel [DecidableEq ν] (ops : NameOps ν) (reserved : ν → Bool)
